@@ -47,4 +47,13 @@ theorem C17_glr_model_prefix_sound (g : Grammar) (T : Table) (inp : Input) (hw :
     (h : GLR.parseGLR g T inp consume lexDis fuel = .forest sF) : ∃ t, IsPrefixParseOf g inp t :=
   (GLR.parseGLR_sound hw hidem consume lexDis fuel sF h).1
 
+/-- With `consume_input` off every tree of the model's packed forest derives a prefix of the input
+ending at a token boundary. -/
+theorem C17_glr_model_forest_prefix_sound (g : Grammar) (T : Table) (inp : Input) (hw : T.wf g = true)
+    (hidem : ∀ p, inp.skip (inp.skip p) = inp.skip p) (consume lexDis : Bool) (fuel : Nat) (sF : GLR.GState)
+    (h : GLR.parseGLR g T inp consume lexDis fuel = .forest sF)
+    (a : Nat) (ha : a ∈ sF.accepted) (l : Nat) (hl : l ∈ sF.parents a) (t : Tree) (ht : GLR.TreeOf sF l t) :
+    IsPrefixParseOf g inp t :=
+  (GLR.parseGLR_forest_sound hw hidem consume lexDis fuel sF h a ha l hl t ht).1
+
 end Pg
